@@ -86,6 +86,49 @@ CHECK_DEADLOCK FALSE
 """ % ("TRUE" if esc else "FALSE")
 
 
+def cfg_svc(esc, maxsteps, varids, updids, require=True, gen=False, invs=True):
+    return """SPECIFICATION %s
+CONSTANTS
+  AutoEscape = %s
+  MaxSteps = %d
+  VarIds = {%s}
+  UpdIds = {%s}
+  RequireInvalidate = %s
+%s
+CHECK_DEADLOCK FALSE
+""" % ("GenSpec" if gen else "Spec", "TRUE" if esc else "FALSE", maxsteps, ", ".join(map(str, varids)), ", ".join(map(str, updids)),
+       "TRUE" if require else "FALSE", "INVARIANTS TypeOK CacheTransparent RequestExact" if invs else "")
+
+
+def cfg_svc_trace(esc):
+    return """SPECIFICATION TraceSpec
+CONSTANTS
+  AutoEscape = %s
+  MaxSteps = 100000
+  VarIds = {1}
+  UpdIds = {1}
+  RequireInvalidate = FALSE
+INVARIANT PrintEnd
+CHECK_DEADLOCK FALSE
+""" % ("TRUE" if esc else "FALSE")
+
+
+def beh_to_scenario(sid, beh, origin="simulate"):
+    """A behaviour of ConfigQuerySvc(Gen) -> request sequence for the driver (the request is the state variable req)."""
+    steps = []
+    for (_, _, st) in beh[1:]:
+        r = from_tla(st["req"])
+        step = {"a": r["op"]}
+        if r["op"] in ("Process", "Raw", "Update"):
+            step["e"] = r["e"]
+        if r["op"] == "Process":
+            step["vars"] = r["vars"]
+        if r["op"] == "Update":
+            step["parts"] = r["parts"]
+        steps.append(step)
+    return {"id": sid, "origin": origin, "content": from_tla(beh[0][2]["content"]), "steps": steps}
+
+
 def par_run(fn, items, nproc):
     """Run fn(item) concurrently (TLC processes); ctx.tlc allocates its scratch directory from a shared counter,
     so a collision (FileExistsError) is simply retried."""
@@ -155,30 +198,29 @@ def run(ctx):
         "template variables have identifier names that are not utility names; entry content = literals, {{ var }} and one "
         "{% include %} of a sibling entry; other pongo2 features are trusted",
         "query strings beyond the exhaustive bound are covered by catalogues of segments and by seeded simulation only",
+        "request sequences (spec/ConfigQuerySvc.tla): one service, two base paths, templates from a catalogue (literal, {{ var }}, "
+        "util.PrefixedOverride / PrefixedOverride - the only utility reading the variable stack -, strings.ToUpper, include); the "
+        "documented protocol is assumed: after an entry is updated the template cache is invalidated before the next processed "
+        "request (a processed request while an update is pending invalidation is recorded and modelled, but not judged)",
     ]
     ctx.rule = ("case = one input (query string / parameter string / query+backend / template+variables) enumerated by TLC from "
                 "spec/ConfigQueryGen.tla (exhaustive within bounds) or spec/ConfigQueryEdit.tla (tlc -simulate, seeded); every case "
-                "is executed by the real code and its recorded result validated by TLC; distinct = distinct inputs")
-
-    # ---------------------------------------------------------------- replay of a recorded violation
-    if ctx.replay:
-        with open(ctx.replay) as fh:
-            cases = [json.load(fh)["replay"]["case"]]
-        return execute(ctx, esc, cases, {}, nproc)
+                "is executed by the real code and its recorded result validated by TLC; distinct = distinct inputs; plus request "
+                "sequences against one long-lived service = behaviours of spec/ConfigQuerySvcGen.tla (tlc -simulate, seeded)")
 
     # ---------------------------------------------------------------- 1. TLC: model check the definitions = enumerate the cases
     if quick:
+        # few TLC processes (each start costs seconds on a busy machine): the kinds share runs
         jobs = [
-            ("str-exhaustive", cfg_gen(esc, ["str"], INV_STR, alphabet=NARROW, maxlen=6)),
-            ("str-wide", cfg_gen(esc, ["str"], INV_STR, alphabet=WIDE, maxlen=4)),
-            ("str-catalogue", cfg_gen(esc, ["str"], INV_STR, qsegmax=1)),
-            ("str-near", cfg_gen(esc, ["near"], INV_STR)),
-            ("par", cfg_gen(esc, ["par"], INV_PAR, pmaxlen=5, pmaxpairs=2)),
-            ("res", cfg_gen(esc, ["res"], INV_RES)),
-            ("rnd-cases", cfg_gen(esc, ["rnd"], "", rndmaxparts=2)),     # every case, whatever the property says
+            ("str-wide+near", cfg_gen(esc, ["str", "near"], INV_STR, alphabet=WIDE, maxlen=4)),
+            ("str-exhaustive+catalogue", cfg_gen(esc, ["str"], INV_STR, alphabet=NARROW, maxlen=5, qsegmax=1)),
+            ("par+res+rnd-cases", cfg_gen(esc, ["par", "res", "rnd"], INV_PAR + " " + INV_RES, pmaxlen=4, pmaxpairs=2,
+                                          rndmaxparts=2)),              # every rendering case, whatever the property says
             ("rnd", cfg_gen(esc, ["rnd"], INV_RND, rndmaxparts=2)),      # stops at a counterexample when AutoEscape
         ]
         nsim, nsimjobs, depth, maxedits, maxseg = 300, 1, 30, 2, 3
+        svc_model = cfg_svc(esc, 4, [1, 3, 4, 8], [1, 2])
+        svc_nsim, svc_steps = 250, 9
     else:
         jobs = [
             ("str-exhaustive", cfg_gen(esc, ["str"], INV_STR, alphabet=NARROW, maxlen=7)),
@@ -194,8 +236,11 @@ def run(ctx):
         for f in ("a", "X", "_"):
             jobs.append(("str-catalogue-" + f, cfg_gen(esc, ["str"], INV_STR, qsegmax=2, qfirst=[f])))
         nsim, nsimjobs, depth, maxedits, maxseg = 1250, 2, 40, 3, 4
+        svc_model = cfg_svc(esc, 5, [1, 2, 3, 4, 5, 8], [1, 2, 4])
+        svc_nsim, svc_steps = 2500, 14
 
     simjobs = [("simulate-%d" % i, cfg_edit(esc, maxedits, maxseg)) for i in range(1, nsimjobs + 1)]
+    svcjobs = [("svc-simulate", cfg_svc(esc, svc_steps, range(1, 10), range(1, 5), gen=True, invs=True)), ("svc-model", svc_model)]
 
     def gen(job):
         label, cfg = job
@@ -203,11 +248,19 @@ def run(ctx):
             seed = ctx.seed * 7919 + 20 + int(label.split("-")[1])
             return ctx.tlc("ConfigQueryEdit", None, workers=1, sim="file=sim/b,num=%d" % nsim, cfg_text=cfg, timeout=900,
                            extra=["-depth", str(depth), "-seed", str(seed)], files={"sim/.keep": ""})
+        if label == "svc-simulate":
+            return ctx.tlc("ConfigQuerySvcGen", None, workers=1, sim="file=sim/b,num=%d" % svc_nsim, cfg_text=cfg, timeout=900,
+                           extra=["-depth", str(svc_steps + 1), "-seed", str(ctx.seed * 7919 + 77)], files={"sim/.keep": ""})
+        if label == "svc-model":
+            return ctx.tlc("ConfigQuerySvc", None, workers=2, cfg_text=cfg, timeout=900)
         return ctx.tlc("ConfigQueryGen", None, workers=1, cfg_text=cfg, timeout=900)
 
     t0 = time.time()
-    results = par_run(gen, simjobs + jobs, nproc)       # the simulations are the longest jobs: start them first
-    simresults, results = results[:nsimjobs], results[nsimjobs:]
+    with ThreadPoolExecutor(max_workers=1) as bx:
+        building = bx.submit(ctx.build, "configquery")                # the driver is built while TLC enumerates
+        results = par_run(gen, simjobs + svcjobs + jobs, nproc)       # the simulations are the longest jobs: start them first
+        binp = building.result()
+    simresults, svcresults, results = results[:nsimjobs], results[nsimjobs:nsimjobs + 2], results[nsimjobs + 2:]
     cases, seen, origin = [], {}, {}
     predicted = []          # (invariant, case) model counterexamples to be reproduced on the real code
     complete = True
@@ -279,20 +332,66 @@ def run(ctx):
                            "wall_s": round(max(rs.wall for rs in simresults), 1)})
     ctx.log("generated %d cases (%d from exhaustive enumeration, %d behaviours simulated) in %.1fs"
             % (len(cases), nexh, len(behs), time.time() - t0))
+    # ---- request sequences against one service: exhaustive model check + simulated scenarios
+    rsim, rmod = svcresults
+    scenarios, spredicted = [], []
+    if rmod.crashed or (rmod.generated == 0 and not rmod.violated):
+        ctx.save_debug(rmod, "tlc_ConfigQuerySvc.txt")
+        raise vlib.Inconclusive("TLC failed on ConfigQuerySvc (rc=%d): %s" % (rmod.rc, vlib.tail(rmod.out)))
+    ctx.states += rmod.distinct
+    ctx.transitions += rmod.generated
+    ctx.model_runs.append({"module": "ConfigQuerySvc", "cfg": "exhaustive", "distinct": rmod.distinct, "generated": rmod.generated,
+                           "result": "ok" if rmod.no_error else "violated:" + ",".join(rmod.violated), "wall_s": round(rmod.wall, 1)})
+    ctx.log("model ConfigQuerySvc: %d distinct, %d generated, %s (%.1fs)" % (rmod.distinct, rmod.generated,
+                                                                             ctx.model_runs[-1]["result"], rmod.wall))
+    for r, org in ((rmod, "model-counterexample"), (rsim, "simulation-counterexample")):
+        if r.violated:
+            complete = False
+            cex = r.counterexample()
+            if len(cex) < 2:
+                raise vlib.Inconclusive("cannot read the counterexample of ConfigQuerySvc")
+            scenarios.append(beh_to_scenario(len(scenarios) + 1, cex, org + ":" + r.violated[0]))
+            spredicted.append((r.violated[0], scenarios[-1]["id"]))
+    sbehs = []
+    for f in sorted(glob.glob(os.path.join(rsim.dir, "sim", "b_*")), key=vlib._natkey):
+        with open(f) as fh:
+            sbehs.append(tlaval.parse_simfile(fh.read()))
+    if not sbehs and not rsim.violated:
+        ctx.save_debug(rsim, "tlc_sim_ConfigQuerySvcGen.txt")
+        raise vlib.Inconclusive("TLC simulation of ConfigQuerySvcGen failed: %s" % vlib.tail(rsim.out))
+    for b in sbehs:
+        if len(b) > 1:
+            scenarios.append(beh_to_scenario(len(scenarios) + 10, b))
+    ctx.model_runs.append({"module": "ConfigQuerySvcGen", "cfg": "simulate", "behaviours": len(sbehs),
+                           "result": "ok" if not rsim.violated else "violated", "wall_s": round(rsim.wall, 1)})
+    ctx.log("generated %d request sequences (%d requests)" % (len(scenarios), sum(len(x["steps"]) for x in scenarios)))
     ctx.exhaustive = complete
-    execute(ctx, esc, cases, origin, nproc, predicted)
+    execute(ctx, esc, cases, origin, nproc, predicted, scenarios, spredicted, binp=binp)
     ctx.extra["cases"] = {"total": len(cases), "exhaustive": nexh, "simulated_behaviours": len(behs)}
 
 
-def execute(ctx, esc, cases, origin, nproc, predicted=()):
+def replay(ctx, rep):
+    """./check C20 --replay <file>: run the recorded case / request sequence again on the real code and judge it."""
+    esc = ctx.deviation_open(DEV_KEY)
+    nproc = int(os.environ.get("VERIF_NPROC") or max(2, min(8, vlib.NCPU // 2)))
+    execute(ctx, esc, [rep["case"]] if rep.get("case") else [], {}, nproc,
+            scenarios=[rep["scenario"]] if rep.get("scenario") else [])
+
+
+def execute(ctx, esc, cases, origin, nproc, predicted=(), scenarios=(), spredicted=(), binp=None):
     quick = ctx.tier == "quick"
     # ---------------------------------------------------------------- 2. the real code on every case
-    binp = ctx.build("configquery")
+    binp = binp or ctx.build("configquery")
     cases_file = ctx.path("cases.ndjson")
     trace_file = ctx.path("trace.ndjson")
     ctx.write_ndjson(cases_file, cases)
-    out = ctx.run([binp, "-cases", cases_file, "-trace", trace_file], timeout=1500)
-    ctx.log("driver: " + out.strip().splitlines()[-1])
+    scn_file = ctx.path("scenarios.ndjson")
+    strace_file = ctx.path("strace.ndjson")
+    ctx.write_ndjson(scn_file, list(scenarios))
+    out = ctx.run([binp, "-cases", cases_file, "-trace", trace_file, "-scenarios", scn_file, "-strace", strace_file], timeout=1500)
+    ctx.log("driver: " + " ".join(out.strip().splitlines()[-2:]))
+    if ("scenarios=%d " % len(scenarios)) not in out:
+        raise vlib.Inconclusive("driver did not process every request sequence: " + vlib.tail(out, 5))
     if ("cases=%d " % len(cases)) not in out:
         raise vlib.Inconclusive("driver did not process every case: " + vlib.tail(out, 5))
 
@@ -301,7 +400,7 @@ def execute(ctx, esc, cases, origin, nproc, predicted=()):
     kinds = {}
     corners = []
     firsts = {}
-    chunk_max = 60000 if quick else 150000
+    chunk_max = min(150000, max(25000, (len(cases) + nproc - 1) // nproc))      # about one chunk per TLC process
     chunks, cur, curn = [], None, 0
     with open(trace_file) as fh:
         for line in fh:
@@ -328,11 +427,15 @@ def execute(ctx, esc, cases, origin, nproc, predicted=()):
         raise vlib.Inconclusive("trace has %d lines for %d cases" % (nlines, len(cases)))
 
     def val(path):
+        if path == strace_file:
+            return ctx.tlc("ConfigQuerySvcTrace", None, workers=1, env={"TRACE_FILE": path}, timeout=1500, cfg_text=cfg_svc_trace(esc))
         return ctx.tlc("ConfigQueryTrace", None, workers=1, env={"TRACE_FILE": path}, timeout=1500, cfg_text=cfg_trace(esc))
 
     t0 = time.time()
     viol, drift, consumed = [], [], 0
-    for path, r in zip(chunks, par_run(val, chunks, nproc)):
+    vresults = par_run(val, ([strace_file] if scenarios else []) + chunks, nproc)
+    rsvc = vresults.pop(0) if scenarios else None
+    for path, r in zip(chunks, vresults):
         end = r.records("END")
         if not end or not r.no_error:
             ctx.save_debug(r, "tlc_trace_ConfigQueryTrace.txt")
@@ -351,7 +454,60 @@ def execute(ctx, esc, cases, origin, nproc, predicted=()):
         raise vlib.Inconclusive("trace validation consumed %d of %d lines" % (consumed, nlines))
     ctx.log("validated %d trace lines in %d chunk(s): %d VIOL, %d DRIFT (%.1fs)" % (nlines, len(chunks), len(viol), len(drift),
                                                                                   time.time() - t0))
-    ctx.traces = len(cases)
+    # ---- the request sequences
+    slines = ctx.read_ndjson(strace_file) if scenarios else []
+    sviol, sdrift = [], []
+    if rsvc is not None:
+        end = rsvc.records("END")
+        if not end or not rsvc.no_error or end[-1][1] != len(slines):
+            ctx.save_debug(rsvc, "tlc_trace_ConfigQuerySvcTrace.txt")
+            raise vlib.Inconclusive("trace validation of ConfigQuerySvcTrace did not reach the end of %s: %s"
+                                    % (strace_file, vlib.tail(rsvc.out, 25)))
+        sviol, sdrift = rsvc.records("VIOL"), rsvc.records("DRIFT")
+        if len(sviol) != end[-1][2]:
+            raise vlib.Inconclusive("could not read every VIOL record of ConfigQuerySvcTrace (%d/%d)" % (len(sviol), end[-1][2]))
+        ctx.states += rsvc.distinct
+        ctx.transitions += rsvc.generated
+        ctx.log("validated %d request-sequence trace lines (%d sequences): %d VIOL, %d DRIFT"
+                % (len(slines), len(scenarios), len(sviol), len(sdrift)))
+    by_id = {x["id"]: x for x in scenarios}
+    for x in scenarios:
+        ctx.count_case("seq:" + json.dumps([x["content"], x["steps"]], sort_keys=True),
+                       nontrivial=sum(1 for st in x["steps"] if st["a"] == "Process") >= 2)
+    for d in sdrift:
+        ctx.drift.append({"scn": d[1], "line": d[2], "event": d[3], "origin": by_id.get(d[1], {}).get("origin"),
+                          "recorded": slines[d[2] - 1] if 0 < d[2] <= len(slines) else None})
+    sflagged = set()
+    sgroups = {}
+    for v in sviol:
+        inv, scn, line, detail = v[1], v[2], v[3], v[4]
+        sflagged.add(scn)
+        api = "GetAndProcessComponentConfiguration" if detail[1] == "Process" else "GetComponentConfiguration"
+        sgroups.setdefault((inv, api, detail[0]), []).append((scn, line))
+    for (inv, api, cause), hits in sorted(sgroups.items()):
+        scn, line = hits[0]
+        ctx.add_violation({"inv": inv, "api": api, "cause": cause, "scn": scn, "line": line, "requests_flagged": len(hits),
+                           "sequences_flagged": len({h[0] for h in hits}), "origin": by_id.get(scn, {}).get("origin"),
+                           "request": {k: slines[line - 1].get(k) for k in ("e", "path", "varsReal", "ok", "payload")}},
+                          replay_obj={"scenario": by_id.get(scn), "trace": [x for x in slines if x.get("scn") == scn]})
+    for (inv, sid) in spredicted:
+        if sid not in sflagged:
+            raise vlib.Inconclusive("MODEL-UNREPRODUCED: ConfigQuerySvc violates %s but the replayed counterexample (sequence %d) "
+                                    "is not flagged on the real code" % (inv, sid))
+    for o in slines:
+        if o.get("ev") == "Corner" and o.get("name") == "processed-payload-after-import" and o.get("afterimport") == o.get("first") \
+                and o.get("afterinvalidate") != o.get("first"):
+            ctx.observations.append("template cache: after ImportComponentConfiguration replaced an entry through the same service, "
+                                    "GetAndProcessComponentConfiguration kept returning the OLD content (%r) until "
+                                    "InvalidateComponentTemplateCache (then %r); GetComponentConfiguration returned the new content "
+                                    "at once - the import path does not invalidate the cache (documented protocol assumed by the model)"
+                                    % (o.get("afterimport"), o.get("afterinvalidate")))
+    ctx.extra["request_sequences"] = {"sequences": len(scenarios), "requests": sum(len(x["steps"]) for x in scenarios),
+                                      "trace_lines": len(slines)}
+    if scenarios:
+        ctx.sample({"request_sequence": scenarios[-1], "trace": [x for x in slines if x.get("scn") == scenarios[-1]["id"]][:6]})
+
+    ctx.traces = len(cases) + len(scenarios)
     ctx.extra["trace_lines"] = nlines
     ctx.extra["trace_kinds"] = kinds
     for c in cases:
